@@ -112,7 +112,7 @@ class Exec:
         self.uni = uni; self.scope = dict(scope or {}); self.obls = []; self.name = name
         self.prune = prune; self.call_model = call_model or {}; self._solver = None; self.npaths = 0
         self.inline_repo_funcs = inline_repo_funcs; self.assumptions = set(); self.dropped = set()
-        self._axioms = None; self.nprune = 0; self.raised = []; self.fields_mode = False; self.method_names = {'values', 'items', 'keys', 'get'}; self.ghost_unhashable = False
+        self._axioms = None; self.nprune = 0; self.raised = []; self.on_yield = None; self.loop_contracts = {}; self.loop_index = {}; self.fields_mode = False; self.method_names = {'values', 'items', 'keys', 'get'}; self.ghost_unhashable = False
     # ------------------------------------------------------------ helpers
     def obl(self, st, kind, goal, where=''):
         self.obls.append(Obl(f'{self.name}.{kind}.{len(self.obls)}', kind, st.pc, goal, where))
@@ -376,6 +376,17 @@ class Exec:
             if last is not None and last[0].eq(b.t): return [(s, last[1])]      # the structured value just stored into this very object
             return [(s, VObj(z3.Select(self.field(s, name), b.t)))]
         return [(s, VBound(b, name))]
+    def e_Yield(self, n, st):
+        outs = []
+        vals = self.eval(n.value, st) if n.value is not None else [(st, VPy(None))]
+        for s, v in vals:
+            k = s.hget('__nyield', 0)
+            idx = s.get('__nyield')
+            s = s.ev('yield', v, idx)
+            if self.on_yield is not None: self.on_yield(self, s, v, idx)
+            if idx is not None: s = s.set('__nyield', VInt(self.as_int(idx) + 1))
+            outs.append((s, VPy(None)))
+        return outs
     def e_Lambda(self, n, st):
         return [(st, VClosure(n, st.env, None))]
     def e_JoinedStr(self, n, st):
@@ -451,7 +462,7 @@ class Exec:
                 except ValueError: pass
         sub = Exec(self.uni, scope, prune=self.prune, call_model=self.call_model, name=self.name + '>' + o.__name__,
                    inline_repo_funcs=self.inline_repo_funcs)
-        sub.obls = self.obls; sub.assumptions = self.assumptions; sub.dropped = self.dropped; sub.raised = self.raised; sub.fields_mode = self.fields_mode; sub.method_names = self.method_names; sub.ghost_unhashable = self.ghost_unhashable
+        sub.obls = self.obls; sub.assumptions = self.assumptions; sub.dropped = self.dropped; sub.raised = self.raised; sub.on_yield = None; sub.fields_mode = self.fields_mode; sub.method_names = self.method_names; sub.ghost_unhashable = self.ghost_unhashable
         return sub.run_function(node, s, args, kwargs, o)
     def bind_params(self, node, s, args, kwargs, defaults_from=None):
         a = node.args; env = {}
@@ -647,6 +658,8 @@ class Exec:
         if isinstance(n.value, ast.Constant): return [('next', st, None)]   # docstring
         return [('next', s, None) for s, _ in self.eval(n.value, st)]
     def s_Pass(self, n, st): return [('next', st, None)]
+    def s_Break(self, n, st): return [('break', st, None)]
+    def s_Continue(self, n, st): return [('continue', st, None)]
     def s_Return(self, n, st):
         if n.value is None: return [('return', st, VPy(None))]
         return [('return', s, v) for s, v in self.eval(n.value, st)]
@@ -835,11 +848,50 @@ class Exec:
             ok = M.inst(bt, self.uni.const(cabc.Iterable)); self.obl(s, 'defined.iter', ok, 'for loop over an iterable'); s = s.assume(ok)
             return SymIter(k, M.mem(bt, k), VObj(k), False, None, s._r(cost=s.cost + M.len_(bt), effects=s.effects + (('iterate_all', bt, 'for'),)))
         raise Unsupported(f'for loop over {type(v).__name__}')
+    def set_target(self, node):
+        """number the loops of the function under contract in source order (sidecar invariants are keyed by loop ordinal)"""
+        loops = [x for x in ast.walk(node) if isinstance(x, (ast.For, ast.While))]
+        loops.sort(key=lambda x: (x.lineno, x.col_offset))
+        self.loop_index = {id(x): i for i, x in enumerate(loops)}
+    def for_invariant(self, n, st, lc):
+        """`for v in <sequence>` by inductive invariant (inv.init / inv.preserve are obligations; the code after the loop is
+        executed from an arbitrary state satisfying the invariant at exit, or from a `break` state)"""
+        outs = []
+        name = lc.get('name', 'loop')
+        for s0, itv in self.eval(n.iter, st):
+            if not isinstance(itv, VObj): raise Unsupported('invariant loop over ' + type(itv).__name__)
+            B = itv.t; L = M.len_(B)
+            ok = M.inst(B, self.uni.const(cabc.Sequence)); self.obl(s0, 'defined.iter', ok, 'invariant loop over a sequence'); s0 = s0.assume(ok)
+            inv = lc['inv']; vars_ = lc['vars']
+            def envof(s): return {v: s.get(v) for v in vars_}
+            self.obl(s0, f'inv.init.{name}', inv(self, z3.IntVal(0), envof(s0), B, s0), 'loop invariant holds on entry')
+            def havoc(s, tag):
+                for v in vars_:
+                    cur = s.get(v)
+                    if isinstance(cur, VBool): s = s.set(v, VBool(M.fresh(f'{v}_{tag}', z3.BoolSort())))
+                    elif isinstance(cur, VInt): s = s.set(v, VInt(M.fresh(f'{v}_{tag}', z3.IntSort())))
+                    else: s = s.set(v, VObj(M.fresh(f'{v}_{tag}')))
+                return s
+            i = M.fresh('i', z3.IntSort())
+            sb = havoc(s0, 'it'); sb = sb.assume(z3.And(0 <= i, i < L)).assume(inv(self, i, envof(sb), B, sb))
+            sb = self.assign(sb, n.target, VObj(M.item(B, i)))
+            for kind, s2, v in self.exec_block(n.body, sb):
+                if kind in ('next', 'continue'):
+                    self.obl(s2, f'inv.preserve.{name}', inv(self, i + 1, envof(s2), B, s2), 'loop invariant preserved by one iteration')
+                elif kind == 'break':
+                    outs.append(('next', s2.ev('loop_break', name, i), None))
+                else: outs.append((kind, s2, v))
+            se = havoc(s0, 'exit'); se = se.assume(inv(self, L, envof(se), B, se))
+            se = se.set(n.target.id, VObj(M.fresh('lastitem'))) if isinstance(n.target, ast.Name) else se
+            outs.append(('next', se.ev('loop_exhausted', name), None))
+        return outs
     def s_For(self, n, st):
         if n.orelse: raise Unsupported('for/else')
         outs = []
         assigned = {x.id for b in n.body for x in ast.walk(b) if isinstance(x, ast.Name) and isinstance(x.ctx, ast.Store)}
         tnames = {x.id for x in ast.walk(n.target) if isinstance(x, ast.Name)}
+        lc = self.loop_contracts.get(self.loop_index.get(id(n)))
+        if lc is not None: return self.for_invariant(n, st, lc)
         for s0, itv in self.eval(n.iter, st):
             if (isinstance(itv, VPy) and isinstance(itv.o, (tuple, list, frozenset))) or isinstance(itv, VTup):
                 # a loop over a constant of the real module: unrolled from the real constant
